@@ -22,6 +22,7 @@ def tally(prefix):
     return tot, first_ok, final_ok
 r1, r2, r3, r4, r5, r6 = tally("C*-*"), tally("R2-C*-*"), tally("R3-C*-*"), tally("R4-C*-*"), tally("R5-C*-*"), tally("R6-C*-*")
 r7 = tally("R7-C*-*")
+r8 = tally("R8-C*-*")
 summary = f"""Round 1 (`C??-n`, two changes per property, free choice of defect): {r1[0]} changes, {r1[1]} caught at the
 first trial, {r1[2]} caught after strengthening. Round 2 (`R2-C??-n`, two more per property; the agents were
 asked for defects that need *scale, a long history or an unusual-but-legal input* to manifest, because
@@ -60,6 +61,11 @@ spellings nobody generated (`www.` domain entries, mixed-case tags, `document` n
 a directive, combinators without spaces, escaped `-` inside a regex class, padding other than a space between
 scriptlet arguments, a query directly after the host), option order rotation in C14/C15, and one more
 oracle-independence repair: C13's store model had been given the library's own reading of the resource kind.
+Round 8 (`R8-C??-n`, ten properties only) asked for defects in *what is reported* and in the less prominent
+clauses of each statement: {r8[0]} changes, {r8[1]} caught at the first trial, {r8[2]} after strengthening (digit-leading
+host labels, `Expires` amounts around every integer width, pre-parsed requests for URLs `Request::new` rejects;
+one change is caught by C01 instead of its nominal owner C03 because the cell it touches is excluded there by
+an open finding).
 Apart from those oracle weaknesses (C13, C14, C15) every miss was a generator-reach problem (sizes, depths,
 lengths, histories, entry points, spellings); each strengthening widened the generated domain and was followed
 by a multi-seed silence run on the unchanged tree.
